@@ -427,6 +427,10 @@ def main(pid, tier, seed):
     fails = sorted(agg["failures"], key=lambda f: (f[0], len(canon(f[1])), canon(f[1])))
     shrink_cache = {}
     history_checked = 0
+    expensive = Counter()  # failures per clause that went through shrinking / confirmation
+    reported = Counter()  # violations per clause
+    unconfirmed = 0
+    MAX_EXPENSIVE = 25
     for clause, case, detail, origin_shard, origin_index in fails:
         key0 = (clause, canon(case))
         if key0 in shrink_cache:
@@ -435,6 +439,12 @@ def main(pid, tier, seed):
         ident = (clause, canon(check.show(case)))
         small = case
         if ident not in known_index:
+            if expensive[clause] >= MAX_EXPENSIVE and any(v[0].endswith(clause) for v in violations):
+                # this clause already has confirmed violations; the remaining (larger) failing cases of the same
+                # clause are counted, not shrunk one by one
+                unconfirmed += 1
+                continue
+            expensive[clause] += 1
             small = shrink_failure(check, clause, case)
             ident = (clause, canon(check.show(small)))
         shrink_cache[key0] = ident
@@ -498,6 +508,8 @@ def main(pid, tier, seed):
             " (failure list capped)" if capped else "",
         )
     )
+    if unconfirmed:
+        print("  (%d further failing cases of clauses that already have confirmed violations were not shrunk individually)" % unconfirmed)
     if violations:
         for clause, small, path, det in violations[:40]:
             print("  failed clause %s on %s\n    %s" % (clause, canon(check.show(small))[:400], det[:400]))
